@@ -8,6 +8,7 @@ from . import build, props
 
 def main():
     t = time.time()
+    props.SPECS.load_all()
     variants = set()
     for spec in props.SPECS.values():
         for st in spec["stages"]:
